@@ -100,11 +100,12 @@ theorem sim (all : List String) (f : Nat) :
           rw [Py.exec] at hpy
           obtain ⟨cur, hcur, hpy⟩ := bind_ok hpy
           obtain ⟨v, hv, hpy⟩ := bind_ok hpy
+          obtain ⟨r, hr, hpy⟩ := bind_ok hpy
           cases hpy
           have hwt' : (Expr.bin op (.var x) e).wt te = true := by
             simp only [Expr.wt, hok.2, hok.1, Option.isSome_some, Bool.and_self]
-          have hpy' : Py.eval stp.store (.bin op (.var x) e) = .ok (op.pyVal cur v) := by
-            rw [Py.eval, hcur, ok_bind, hv, ok_bind]; rfl
+          have hpy' : Py.eval stp.store (.bin op (.var x) e) = .ok r := by
+            rw [Py.eval, hcur, ok_bind, hv, ok_bind]; exact hr
           exact assign_sim hst hwt' (by rw [hok.2]; rfl) hpy' f
         · cases htr
       | ifs c a b =>
